@@ -534,7 +534,7 @@ Section Gen.
   Qed.
 
   Lemma normalise_length (ws : list T) : length (normalise ws) = length ws.
-  Proof. unfold normalise. apply map_length. Qed.
+  Proof. unfold normalise. destruct (is_fin NN _); rewrite !map_length; reflexivity. Qed.
 
   (** *** The chance epilogue *)
   Lemma chance_fin_inv prev s info ws ks s1 nd s' :
@@ -801,7 +801,7 @@ Section Real.
   Qed.
 
   Lemma normalise_R (ws : list R) : @normalise RNum ws = map (fun w => w / Rsum ws) ws.
-  Proof. unfold normalise. rewrite sum_Rsum. reflexivity. Qed.
+  Proof. unfold normalise. cbn [is_fin RNum]. rewrite sum_Rsum. reflexivity. Qed.
 
   Lemma normalise_rowOK (ws : list R) :
     ws <> [] -> Forall (fun w => 0 < w) ws -> rowOK (@normalise RNum ws).
